@@ -290,17 +290,50 @@ func (packet *Packet) readPacket(connection net.Conn) ([]byte, error) {
 		return data, nil
 	}
 
-	var buf []byte
-	buf, err := packet.readPacket(connection)
-	if err != nil {
-		return nil, err
+	// https://dev.mysql.com/doc/dev/mysql-server/latest/page_protocol_basic_packets.html#sect_protocol_basic_packets_sending_mt_16mb
+	// A payload of 2^24-1 bytes or more is sent as packets of 2^24-1 bytes followed by one packet with the rest,
+	// which is EMPTY when the payload length is a multiple of 2^24-1. packet.header keeps the header of the FIRST
+	// packet (maximum length, first sequence id): Dump splits the payload again starting from that sequence id,
+	// and a header length of 2^24-1 tells IsEOF/isResultSetRowsEnd that this is not a short EOF/OK packet.
+	// The headers of the continuation packets were read into packet.header before, so that Dump sent the whole
+	// payload behind the header of the last part, and the empty last part was refused.
+	continuation := make([]byte, PacketHeaderSize)
+	for {
+		if _, err := io.ReadFull(connection, continuation); err != nil {
+			return nil, err
+		}
+		length = int(uint32(continuation[0]) | uint32(continuation[1])<<8 | uint32(continuation[2])<<16)
+		part := make([]byte, length)
+		if _, err := io.ReadFull(connection, part); err != nil {
+			return nil, err
+		}
+		data = append(data, part...)
+		if length < MaxPayloadLen {
+			return data, nil
+		}
 	}
-	return append(data, buf...), nil
 }
 
 // Dump returns packet header and data as []byte
 func (packet *Packet) Dump() []byte {
-	return append(packet.header, packet.data...)
+	if len(packet.data) < MaxPayloadLen {
+		return append(packet.header, packet.data...)
+	}
+	// split into packets of 2^24-1 bytes and a last shorter (possibly empty) one, see readPacket
+	output := make([]byte, 0, len(packet.data)+(len(packet.data)/MaxPayloadLen+1)*PacketHeaderSize)
+	sequenceID := packet.header[SequenceIDIndex]
+	for data := packet.data; ; sequenceID++ {
+		length := len(data)
+		if length > MaxPayloadLen {
+			length = MaxPayloadLen
+		}
+		output = append(output, byte(length), byte(length>>8), byte(length>>16), sequenceID)
+		output = append(output, data[:length]...)
+		data = data[length:]
+		if length < MaxPayloadLen {
+			return output
+		}
+	}
 }
 
 // ReadPacket header and payload from connection or return error
